@@ -8,6 +8,8 @@ mod gen;
 mod model;
 mod traffic;
 mod syncdrv;
+mod aio;
+mod conn;
 mod props;
 
 use engine::{Ctx, Tier};
